@@ -61,7 +61,24 @@ func c19Profiles(tier string) []Profile {
 				Letter{"Reopen", func(w *harness.World) { w.Reopen(true); ensureX(w) }})
 			return ls
 		}}
-	return []Profile{p.Profile(fmt.Sprintf("every history of length <= %d over Set/Delete on 3 keys, key-only lookups (GetItem, Min, Max, Exist), key-only visits through 3 APIs, Len, one value-loading lookup and visit (to vary what is cached), Flush, Evict, Reopen; at the end of every history the file is re-opened and all key-only operations run again on the never-loaded store. Every ReadAt issued during a key-only call is checked against the value byte ranges of all item records (independent decoder over all roots); every open of a file ending in a root record may only Stat and read inside that record and must leave no node cached", d))}
+	conc := &WorldScenario{Name: "keyonly-readers", Mon: mon, Keys: keys,
+		Desc: "two goroutines doing key-only lookups of the same item whose node is cached and whose item is evicted (re-opened file, key-only lookup, EvictSomeItems): reader [GetItem(k,false), Exist(k)] || reader [GetItem(k,false)]; every ReadAt is checked against the value byte ranges",
+		Setup: func(w *harness.World) {
+			w.SetCollection("x", "nil")
+			for _, k := range keys {
+				w.SetItem("x", k, int32(k[0]%3)+1, bs("value-of-"+string(k)))
+			}
+			w.Flush()
+			w.Reopen(true)
+			w.GetItem("x", kB, false)
+			w.Evict("x")
+			w.Evict("x")
+		},
+		Threads: []func(w *harness.World){
+			func(w *harness.World) { w.GetItemRaw("x", kB, false); w.Exist("x", kB) },
+			func(w *harness.World) { w.GetItemRaw("x", kB, false) },
+		}}
+	return []Profile{conc.Profile(2), p.Profile(fmt.Sprintf("every history of length <= %d over Set/Delete on 3 keys, key-only lookups (GetItem, Min, Max, Exist), key-only visits through 3 APIs, Len, one value-loading lookup and visit (to vary what is cached), Flush, Evict, Reopen; at the end of every history the file is re-opened and all key-only operations run again on the never-loaded store. Every ReadAt issued during a key-only call is checked against the value byte ranges of all item records (independent decoder over all roots); every open of a file ending in a root record may only Stat and read inside that record and must leave no node cached", d))}
 }
 
 func init() {
